@@ -16,7 +16,7 @@ assumptions = ["file names avoid U+03A3 (str.lower()'s final-sigma rule is conte
                "os.listdir / PyFilesystem listing order is an input of the model (recorded by the harness)"]
 extra_trusted = ["os, tempfile, PyFilesystem2 MemoryFS; path join/split/normpath are evaluated by the real library"]
 
-SIM_NAMES = ["song.sm", "song.ssc", "Song.SM", "b.Ssc", "x.sM", "other.sm", "second.ssc", "UPPER.SSC", "._song.sm", "._new.ssc", ".hidden.ssc", "a b.sm", "dotted.name.ssc"]
+SIM_NAMES = ["song.sm", "song.ssc", "Song.SM", "b.Ssc", "x.sM", "other.sm", "second.ssc", "UPPER.SSC", "._song.sm", "._new.ssc", ".hidden.ssc", "a b.sm", "dotted.name.ssc", ".ssc", ".SM", ".sm"]
 NEAR = ["song.sm.old", "song.ssca", "sm", "ssc", "song.smx", "notes.txt", "banner.png", "music.ogg", ".sm.bak", "a.sm~"]
 GOOD = b"#TITLE:ok;\n#BPMS:0.000=120.000;\n"
 STRAY = b"junk\n#TITLE:stray;\n#BPMS:0.000=120.000;\n"
@@ -26,8 +26,8 @@ SSC_GOOD = b"#VERSION:0.83;\n#TITLE:ssc;\n"
 
 def content_for(rng, name):
     if name.lower().endswith(".ssc"):
-        return rng.choice([SSC_GOOD, SSC_GOOD, b"junk " + SSC_GOOD, ENC])
-    return rng.choice([GOOD, GOOD, STRAY, ENC])
+        return rng.choice([SSC_GOOD, SSC_GOOD, b"junk " + SSC_GOOD, ENC, GOOD + b"#NOTEDATA:;\n#NOTES:0000;\n"])      # an .ssc file need not start with VERSION
+    return rng.choice([GOOD, GOOD, STRAY, ENC, SSC_GOOD])                                                             # and an .sm file may
 
 
 def rand_song_dir(rng):
